@@ -50,6 +50,9 @@ func (u *Universe) MethodSource(need map[string]bool) (string, map[string]bool) 
 			switch t.EqualMethod {
 			case "derived":
 				fmt.Fprintf(&sb, "func (this *%s) Equal(that *%s) bool { return deriveEqualM%s(this, that) }\n\n", t.Name, t.Name, t.Name)
+			case "customv":
+				imps["strings"] = true
+				fmt.Fprintf(&sb, "func (this %s) Equal(that %s) bool { return strings.ToLower(this.Word) == strings.ToLower(that.Word) }\n\n", t.Name, t.Name)
 			case "custom":
 				imps["strings"] = true
 				fmt.Fprintf(&sb, "func (this *%s) Equal(that *%s) bool {\n\tif this == nil || that == nil {\n\t\treturn this == nil && that == nil\n\t}\n\treturn strings.ToLower(this.Word) == strings.ToLower(that.Word)\n}\n\n", t.Name, t.Name)
@@ -59,6 +62,9 @@ func (u *Universe) MethodSource(need map[string]bool) (string, map[string]bool) 
 			switch t.CompareMethod {
 			case "derived":
 				fmt.Fprintf(&sb, "func (this *%s) Compare(that *%s) int { return deriveCompareM%s(this, that) }\n\n", t.Name, t.Name, t.Name)
+			case "customv":
+				imps["strings"] = true
+				fmt.Fprintf(&sb, "func (this %s) Compare(that %s) int { return strings.Compare(strings.ToLower(this.Word), strings.ToLower(that.Word)) }\n\n", t.Name, t.Name)
 			case "custom":
 				imps["strings"] = true
 				fmt.Fprintf(&sb, "func (this *%s) Compare(that *%s) int {\n\tif this == nil {\n\t\tif that == nil {\n\t\t\treturn 0\n\t\t}\n\t\treturn -1\n\t}\n\tif that == nil {\n\t\treturn 1\n\t}\n\treturn strings.Compare(strings.ToLower(this.Word), strings.ToLower(that.Word))\n}\n\n", t.Name, t.Name)
